@@ -171,6 +171,9 @@ ReqTags(r) ==
      (IF r.leaked_r > 0 \/ r.r_field THEN {<<"C08", "blinding-factor-in-request:" \o r.path>>} ELSE {})
   \cup (IF r.leaked_secret > 0 THEN {<<"C08", "output-secret-in-request:" \o r.path>>} ELSE {})
   \cup (IF r.panic THEN {<<"C06", "handler-panicked:" \o r.path>>} ELSE {})
+  \* C17, no value lost: a swap the wallet makes gives up exactly the fee the mint charges for its inputs, not more
+  \* (a melt may overpay: this mint returns no change)
+  \cup (IF r.path = "swap" /\ r.status = 200 /\ r.insum - r.outsum > r.fee THEN {<<"C17", "swap-burns-more-than-the-fee">>} ELSE {})
 
 \* signed : [<<wallet, keyset>> -> set of counters whose output has been signed]
 Key(o) == <<o.w, o.ks>>
